@@ -364,6 +364,27 @@ def rules(ck, P):
         ck.check(rets_ok, "R-RANGES", q_.rsplit("::", 1)[-1] + "|returns-append", "%s returns the range of its append(%s)" % (q_.rsplit("::", 1)[-1], what), "%s does not return the range of the section it appended" % q_.rsplit("::", 1)[-1], ir.loc(f_))
 
     wire.block_geometry_rules(ck, P)
+    # ---------------- R-ALL-LEVELS: every writer walks the whole advertised coverage
+    n_w = 0
+    for i in P.impls_of("::TilesWriterTrait"):
+        for mname in ("write_to_path", "write_to_writer"):
+            m_ = P.impl_method(i, mname, inline=False)
+            if m_ is None:
+                continue
+            bodies_ = [m_] + [x for x in P.bodies if x.get("self_adt") == i.get("self_adt") and not x.get("trait_item") and x["q"] != m_["q"]]
+            for bb_ in bodies_:
+                for n, parents, _ in ir.walk(bb_["body"]):
+                    if not (n.get("k") == "mcall" and (n.get("q") or "").endswith("TileBBoxPyramid::iter_levels")):
+                        continue
+                    n_w += 1
+                    chain = [p_["name"] for p_ in parents if p_.get("k") == "mcall" and ir.contains(p_["recv"], lambda y: y is n)]
+                    bad = [c for c in chain if c in ("skip", "take", "step_by", "filter", "skip_while", "take_while", "nth", "last", "next", "find", "take_until", "filter_map", "rev") and c != "rev"]
+                    loops_ = [p_ for p_ in parents if p_.get("k") == "for" and ir.contains(p_["iter"], lambda y: y is n)]
+                    esc = [y["k"] for lp_ in loops_ for y in ir.walk_nodes(lp_["body"]) if y.get("k") in ("break", "continue")]
+                    short_ = i.get("self_adt", "").rsplit("::", 1)[-1]
+                    ck.check(not bad and not esc, "R-ALL-LEVELS", "%s|%s#%d" % (short_, bb_["q"].rsplit("::", 1)[-1], n_w), "%s walks every level of the advertised pyramid (iter_levels with %s)" % (short_, chain or "no adaptor"),
+                             "%s does not walk every level of the advertised pyramid: iter_levels() is narrowed by %s%s" % (short_, bad, " and the loop has %s" % esc if esc else ""), ir.loc(n))
+    ck.anchor("R-ALL-LEVELS", "iter_levels() sites in the writers", list(range(n_w)), 5)
     # ---------------- R-NAME
     for fmt, adt, rdr in (("tar", "::TarTilesWriter", "tar::reader::TarTilesReader::open_path"), ("directory", "::DirectoryTilesWriter", "directory::reader::DirectoryTilesReader::open_path")):
         w = None
